@@ -90,7 +90,7 @@ def make_config(rng, truth, k):
             sub = dict(A=True, B=True) if AB == 'true' else dict(AB)
             c = int(rng.integers(0, 9))
             if (k // 7) % 5 == 3:
-                c = 9 + (k // 35) % 4  # the documented defaults and opt-outs
+                c = 9 + (k // 1000 + k) % 4  # the documented defaults and opt-outs
             if c == 9:
                 sub['pos'] = False  # -> velocities only
             elif c == 10:
@@ -210,10 +210,16 @@ def lc_trees(run, rng, n):
                     desc = dict(layout='light_cone', H=L['H'], subsamples=sub if sub is True else dict(sub), fields=fields)
                     run.progress(desc)
                     run.ev()
-                    cat, err = catoracle.load(L['path'], subsamples=sub, fields=fields)
+                    # the catalogue named by its directory, by the lc_halo_info file, or by a one-element list of it
+                    nload = run.counters.get('loads', 0)
+                    lcfile = os.path.join(L['path'], 'lc_halo_info.asdf')
+                    lcpath = [L['path'], lcfile, [lcfile]][nload % 3]
+                    desc['path_style'] = ['directory', 'file', 'file_list'][nload % 3]
+                    cat, err = catoracle.load(lcpath, subsamples=sub, fields=fields, **(dict(verbose=True) if nload % 5 == 4 else {}))
                     run.count('loads')
                     if err is not None:
                         run.count('load_errors')
+                        run.violation('subsample-load-fails', dict(error=f'{type(err).__name__}: {err}'[:200], **desc))
                         continue
                     run.count('loads_ok')
                     run.nt(('lc', k, repr(sub), repr(fields)))
